@@ -1,5 +1,5 @@
 (* Props/C10.v — property theorems only (model: Syntax/CoreGrammar.v, core token fragment). *)
-From Verif Require Import Base.Str Syntax.CoreGrammar Proofs.CoreGrammarProofs.
+From Verif Require Import Base.Str Syntax.CoreGrammar Proofs.CoreGrammarProofs Proofs.CoreGrammarPrefixBounded.
 
 (* posErr's Incomplete flag = input exhausted inside an open statement *)
 Theorem C10_posErr_incomplete_iff_eof_in_open_stmt : forall (A : Type) o cur c p,
@@ -28,3 +28,50 @@ Theorem C10_eof_errors_incomplete : forall px fuel,
   (forall o q npos, eof_ok end_l (func_decl px fuel (S o) q npos [])).
 Proof. exact eof_all. Qed.
 Print Assumptions C10_eof_errors_incomplete.
+
+(* ---- prefix clause on the model ----
+   Full statement aimed at (NOT proved for unbounded length):
+     C10_prefix_monotone : forall posix q r, accepted (parse_toks posix (q ++ r)) = true ->
+        accepted (parse_toks posix q) = true \/ incomplete (parse_toks posix q) = true
+   (every token-boundary cut, hence every newline cut).  What is proved:
+   (a) for all inputs: the lemma for every token-level loop of the parser (redirections, the word/redirect loop
+       of a simple command, for-word lists, case patterns, the for header) and the inductive step for the
+       statement loop Parser.stmts given the lemma for getStmt — the remaining mutual cases (getStmt,
+       gotStmtPipe and the compound commands) follow the same scheme with C10_eof_errors_incomplete but are not
+       mechanised;
+   (b) the full statement for every token list of length <= 4, exhaustively (954,305 lists, every cut). *)
+
+Theorem C10_prefix_monotone_simple_command_partial : forall r px fuel o q first ts,
+  pre_g end_l (lock_l r) (call_loop px fuel (S o) q first (ts ++ r)) (call_loop px fuel (S o) q first ts).
+Proof. exact pre_call_loop. Qed.
+Print Assumptions C10_prefix_monotone_simple_command_partial.
+
+Theorem C10_prefix_monotone_stmts_step_partial : forall r px f,
+  (forall o q re bc ts, pre_g (end_ob ts) (lock_ob r) (get_stmt px f (S o) q re bc (ts ++ r)) (get_stmt px f (S o) q re bc ts)) ->
+  (forall o q stops ge any ts, pre_g end_lb (lock_lb r) (stmts px f o q stops ge any (ts ++ r)) (stmts px f o q stops ge any ts)) ->
+  forall o q stops ge any ts,
+    pre_g end_lb (lock_lb r) (stmts px (S f) o q stops ge any (ts ++ r)) (stmts px (S f) o q stops ge any ts).
+Proof. exact pre_stmts_step. Qed.
+Print Assumptions C10_prefix_monotone_stmts_step_partial.
+
+Theorem C10_prefix_ok_or_incomplete_upto4_partial : forall posix ts, length ts <= 4 ->
+  accepted (parse_core posix ts) = true ->
+  forall k, k <= length ts ->
+    accepted (parse_core posix (firstn k ts)) = true \/ incomplete (parse_core posix (firstn k ts)) = true.
+Proof. exact prefix4. Qed.
+Print Assumptions C10_prefix_ok_or_incomplete_upto4_partial.
+
+(* ---- position clause on the model ----
+   Full statement aimed at (NOT proved for unbounded length): forall posix ts c p i,
+     parse_core posix ts = PErr c p i -> 1 <= p <= length (norm ts).  Proved exhaustively up to length 4. *)
+Theorem C10_error_pos_inside_upto4_partial : forall posix ts c p i, length ts <= 4 ->
+  parse_core posix ts = PErr c p i -> 1 <= p <= length (norm ts).
+Proof. exact pos4. Qed.
+Print Assumptions C10_error_pos_inside_upto4_partial.
+
+Example C10_prefix_nonvacuous :
+  accepted (parse_core false [TIf; TName; TNewl; TThen; TName; TNewl; TFi]) = true /\
+  incomplete (parse_core false [TIf; TName; TNewl]) = true /\
+  incomplete (parse_core false [TIf; TName; TNewl; TThen; TName; TNewl]) = true.
+Proof. exact prefix_nonvacuous. Qed.
+Print Assumptions C10_prefix_nonvacuous.
